@@ -547,6 +547,19 @@ class Analyzer:
             m = f.attr
             if isinstance(f.value, ast.Name) and f.value.id == "self" and m in self.funcs:
                 return self.inline(self.funcs[m], args, kwargs)
+            if m == "join" and len(args) == 1 and (isinstance(f.value, ast.Constant) and isinstance(f.value.value, str)
+                                                   or recv == PY("str")):
+                # sep.join(xs): TypeError unless every element is a str
+                els = self.iterate(e, args[0])
+                notstr = set()
+                for a in els:
+                    if a[0] == "json" and a[1] - {"str"}:
+                        notstr |= (a[1] - {"str"})
+                    elif a[0] in ("list", "tuple", "set", "dictc", "obj") or (a[0] == "py" and a[1] not in ("str", "other")):
+                        notstr.add(a[1] if a[0] == "py" else a[0])
+                if notstr:
+                    self.sink(e, "CONVERT", "str.join over elements that may be %s: %s" % (sorted(notstr), ast.unparse(e)[:80]))
+                return PY("str")
             out = set()
             for a in recv:
                 if m == "get" and (a[0] == "json" or a[0] == "dictc"):
